@@ -252,11 +252,7 @@ impl CommonInformationEntry {
             instruction.write(w, encoding, self)?;
         }
 
-        write_nop(
-            w,
-            encoding.format.word_size() as usize + w.len() - length_base,
-            encoding.address_size,
-        )?;
+        write_nop(w, w.len() - offset, encoding.address_size)?;
 
         let length = (w.len() - length_base) as u64;
         w.write_initial_length_at(length_offset, length, encoding.format)?;
@@ -308,6 +304,7 @@ impl FrameDescriptionEntry {
         cie: &CommonInformationEntry,
     ) -> Result<()> {
         let encoding = cie.encoding;
+        let offset = w.len();
         let length_offset = w.write_initial_length(encoding.format)?;
         let length_base = w.len();
 
@@ -360,11 +357,7 @@ impl FrameDescriptionEntry {
             instruction.write(w, encoding, cie)?;
         }
 
-        write_nop(
-            w,
-            encoding.format.word_size() as usize + w.len() - length_base,
-            encoding.address_size,
-        )?;
+        write_nop(w, w.len() - offset, encoding.address_size)?;
 
         let length = (w.len() - length_base) as u64;
         w.write_initial_length_at(length_offset, length, encoding.format)?;
